@@ -25,15 +25,19 @@ import (
 
 // Step is one action of the driving goroutine.
 type Step struct {
-	K   string `json:"k"`   // S strobe, T terminate, P poll (non-blocking look at Signals())
-	Gap int    `json:"gap"` // microseconds to wait before the action
+	K   string `json:"k"`           // S strobe, T terminate, P poll (non-blocking look at Signals()), C chain
+	Gap int    `json:"gap"`         // microseconds to wait before the action
+	N   int    `json:"n,omitempty"` // C: repetitions of "spin until a signal is received, strobe at once"
 }
 
 // Case is one scenario.
 type Case struct {
 	WindowUs int    `json:"window_us"`
 	Listen   bool   `json:"listen"`
-	Steps    []Step `json:"steps"`
+	// Immediate: the first strobe is issued right after NewCoalescer returns,
+	// before the run loop goroutine can be expected to be parked in its select.
+	Immediate bool   `json:"immediate,omitempty"`
+	Steps     []Step `json:"steps"`
 }
 
 type event struct {
@@ -107,7 +111,7 @@ func lateDeadline(evs []event, w, sl int64, listen bool) bool {
 
 func runCase(c Case) result {
 	window := time.Duration(c.WindowUs) * time.Microsecond
-	co := state.NewCoalescer(window)
+	var co *state.Coalescer
 	start := time.Now()
 	us := func() int64 { return time.Since(start).Microseconds() }
 	var seq atomic.Uint64
@@ -205,6 +209,25 @@ func runCase(c Case) result {
 		}
 	}()
 
+	strobes, terminated := 0, false
+	if c.Immediate {
+		// the call time is taken before the coalescer even exists (an earlier
+		// call time only weakens what the monitor may claim)
+		s := seq.Add(1)
+		cT := us()
+		co = state.NewCoalescer(window)
+		co.Strobe()
+		rT := us()
+		select {
+		case refStrobes <- struct{}{}:
+		default:
+		}
+		add(s, 'S', cT, rT)
+		strobes++
+	} else {
+		co = state.NewCoalescer(window)
+	}
+
 	stopConsumer := make(chan struct{})
 	consumerDone := make(chan struct{})
 	signals := 0
@@ -226,10 +249,34 @@ func runCase(c Case) result {
 		close(consumerDone)
 	}
 
-	strobes, terminated := 0, false
 	for _, st := range c.Steps {
 		time.Sleep(time.Duration(st.Gap) * time.Microsecond)
 		switch st.K {
+		case "C":
+			// tight chain: spin until a signal is received, strobe at once
+			for i := 0; i < st.N; i++ {
+				limit := time.Now().Add(window + 300*time.Millisecond)
+				got := false
+				for !got && time.Now().Before(limit) {
+					select {
+					case <-co.Signals():
+						got = true
+					default:
+					}
+				}
+				t := us()
+				if !got {
+					add(seq.Add(1), 'P', t, 0)
+					break
+				}
+				s1, s2 := seq.Add(1), seq.Add(1)
+				co.Strobe()
+				rT := us()
+				add(s1, 'G', t, 0)
+				add(s2, 'S', t, rT)
+				signals++
+				strobes++
+			}
 		case "S":
 			s := seq.Add(1)
 			cT := us()
@@ -306,6 +353,14 @@ func runCase(c Case) result {
 		fmt.Sprintf("strobes:%d", min(strobes, 8)), fmt.Sprintf("signals:%d", min(signals, 8))}
 	if terminated {
 		tags = append(tags, "terminated")
+	}
+	if c.Immediate {
+		tags = append(tags, "strobe-immediately-after-new")
+	}
+	for _, st := range c.Steps {
+		if st.K == "C" {
+			tags = append(tags, "chain:receive-then-strobe-at-once")
+		}
 	}
 	switch {
 	case overloaded:
@@ -474,11 +529,32 @@ func main() {
 			}
 		}
 	}
+	// Strobe immediately after NewCoalescer (the run loop goroutine has not
+	// parked in its select yet), and tight chains "receive a signal, strobe at
+	// once" (the run loop has just delivered a signal): every strobe that
+	// returned must still be followed by a signal.
+	for rep := 0; rep < 8; rep++ {
+		for _, win := range []int{3000, 20000, 60000} {
+			for _, listen := range []bool{true, false} {
+				grid = append(grid, Case{WindowUs: win, Listen: listen, Immediate: true})
+				grid = append(grid, Case{WindowUs: win, Listen: listen, Immediate: true,
+					Steps: []Step{{K: "S", Gap: 0}, {K: "S", Gap: 3 * win}}})
+			}
+		}
+	}
+	nChain := 8
+	if cfg.Thorough() {
+		nChain = 60
+	}
+	for i := 0; i < nChain; i++ {
+		grid = append(grid, Case{WindowUs: 1000 + 500*(i%4), Immediate: i%2 == 0,
+			Steps: []Step{{K: "S", Gap: 0}, {K: "C", N: 100}}})
+	}
 	runBatch(grid, "exhaustive")
-	w.Extra["exhaustive_scope"] = fmt.Sprintf("every strobe pattern of 1..4 strobes with gaps from {0.3w, 0.6w, 1.8w, 3w}, windows %v us, with a listening consumer and with polling only; plus slow-consumer patterns (first signal left buffered for 1.5w/2.5w, a strobe meanwhile, the old signal taken 0.1w/0.25w/1.6w after that strobe, a look at the channel after window + 180 ms), windows %v us", windows, slowWindows)
+	w.Extra["exhaustive_scope"] = fmt.Sprintf("every strobe pattern of 1..4 strobes with gaps from {0.3w, 0.6w, 1.8w, 3w}, windows %v us, with a listening consumer and with polling only; plus slow-consumer patterns (first signal left buffered for 1.5w/2.5w, a strobe meanwhile, the old signal taken 0.1w/0.25w/1.6w after that strobe, a look at the channel after window + 180 ms), windows %v us; plus 96 scenarios whose first strobe is issued immediately after NewCoalescer and %d chains of 100 x (spin until a signal is received, strobe at once)", windows, slowWindows, nChain)
 
 	// Seeded random scenarios.
-	nRandom := 420
+	nRandom := 300
 	if cfg.Thorough() {
 		nRandom = 9000
 	}
